@@ -567,7 +567,7 @@ class Tensor(object):
                         dim=3,
                     )
                     c = torch.cat([slice1, slice2], dim=2)
-                    Us.append(torch.cat((self.Us[n], other.Us[n]), dim=2))
+                    Us.append(torch.cat((this.Us[n], other.Us[n]), dim=2))
                 else:
                     slice1 = torch.cat(
                         [
@@ -614,13 +614,13 @@ class Tensor(object):
                         dim=2,
                     )
                     c = torch.cat([slice1, slice2], dim=1)
-                    Us.append(torch.cat((self.Us[n], other.Us[n]), dim=1))
+                    Us.append(torch.cat((this.Us[n], other.Us[n]), dim=1))
 
                 cores.append(c)
                 continue
 
             if this.Us[n] is not None:
-                core1 = torch.einsum(idxs, (core1, self.Us[n]))
+                core1 = torch.einsum(idxs, (core1, this.Us[n]))
             if other.Us[n] is not None:
                 core2 = torch.einsum(idxs, (core2, other.Us[n]))
 
